@@ -135,4 +135,61 @@ func TestVerifC16Subjects(t *testing.T) {
 			}
 		}
 	}
+
+	// ---- envelopes WITHOUT an AckInbox (fire-and-forget publishers: nobody can be told, but the rule for the LOG is the same) ----
+	// Each conditional publish is followed by a waived marker WITH an AckInbox on the same connection and subject: NATS keeps the
+	// order, so once the marker is acknowledged the conditional one has been decided. Right / waived: stored at `next`, the marker at
+	// next+1; stale / future: NOT stored, the marker at `next`.
+	for _, kind := range []string{"next", "stale", "future", "waived", "future", "stale", "next"} {
+		next := p.log.NewestOffset() + 1
+		exp := int64(-1)
+		switch kind {
+		case "next":
+			exp = next
+		case "stale":
+			exp = next - 1
+		case "future":
+			exp = next + 3
+		}
+		seq++
+		cid := fmt.Sprintf("cid%d", seq)
+		line := fmt.Sprintf("c16sub no-ack-inbox expected=%s(%d) next=%d", kind, exp, next)
+		b, _ := pb.Marshal(&client.Message{Value: []byte(line), Offset: exp})
+		mk, _ := pb.Marshal(&client.Message{Value: []byte("marker " + line), AckInbox: "c16sub.acks", CorrelationId: cid, AckPolicy: client.AckPolicy_LEADER, Offset: -1})
+		for len(acks) > 0 {
+			<-acks
+		}
+		if nc.Publish("c16w.x", c14sEnvelope(0, b)) != nil || nc.Publish("c16w.x", c14sEnvelope(0, mk)) != nil {
+			t.Fatal("publish failed")
+		}
+		nc.Flush()
+		var ack *client.Ack
+		dl := time.After(5 * time.Second)
+	waitm:
+		for {
+			select {
+			case a := <-acks:
+				if a.CorrelationId == cid {
+					ack = a
+					break waitm
+				}
+			case <-dl:
+				break waitm
+			}
+		}
+		accept := exp == -1 || exp == next
+		res.Count(line, !accept)
+		res.Dist("no-ack-inbox:expected=" + kind)
+		want := next
+		if accept {
+			want = next + 1
+		}
+		switch {
+		case ack == nil:
+			res.Fail(vFailure{Kind: "spec", Case: []string{line}, Detail: "the marker published behind it was never acknowledged", Tag: "conditional-publish-no-answer"})
+		case ack.AckError != client.Ack_OK || ack.Offset != want:
+			res.Fail(vFailure{Kind: "spec", Case: []string{line}, Detail: fmt.Sprintf("C16 demands: stored iff the expected offset is the next one (or waived); the marker behind it should be at %d, it is at %d (ack error %v): the conditional publish was %s", want, ack.Offset, ack.AckError,
+				map[bool]string{true: "not stored although its expectation was right", false: "STORED although its expectation was wrong"}[accept]), Tag: "conditional-publish-envelope-no-inbox"})
+		}
+	}
 }
